@@ -5,6 +5,7 @@ import (
 	"encoding/json"
 	"fmt"
 	"io"
+	"strings"
 
 	"github.com/maruel/panicparse/v2/stack"
 
@@ -19,7 +20,7 @@ func init() {
 }
 
 // cutModes: how the end is signalled at the cut.
-var cutModes = []string{"eof", "err-after", "err-with-data", "temporary-err-after"}
+var cutModes = []string{"eof", "err-after", "err-with-data", "temporary-err-after", "err-once-then-the-rest"}
 
 type c10Case struct {
 	Stream *gen.Stream `json:"stream"`
@@ -134,6 +135,11 @@ func c10Eval(r *core.Run, base *c10Base, c *c10Case) {
 	case 3:
 		// a failure that describes itself as temporary (EAGAIN, a deadline) and does not go away
 		src.Final = sched.ErrTemporary
+	case 4:
+		// a one-shot failure (a deadline that is then extended, iotest.TimeoutReader): whoever reads on gets the rest
+		// of the stream. The failure is still to be reported, as itself, by the call that met it.
+		src.Final = sched.ErrInjected
+		src.Then = append([]byte{}, base.in[c.Cut:]...)
 	}
 	wantErr := src.Final
 	res := resumeAllSrc(src, namingOpts(), true, len(base.snaps)+8)
@@ -318,9 +324,9 @@ func runC10(r *core.Run) {
 		}
 		inDump := 0
 		for cut := 0; cut <= len(base.in); cut++ {
-			for mode := 0; mode < 4; mode++ {
-				if mode == 3 && cut%7 != 0 {
-					continue // the fourth way of signalling at every seventh offset
+			for mode := 0; mode < 5; mode++ {
+				if (mode == 3 && cut%7 != 0) || (mode == 4 && cut%5 != 0) {
+					continue // the fourth way of signalling at every seventh offset, the fifth at every fifth
 				}
 				c10Eval(r, base, &c10Case{Stream: s, Cut: cut, Mode: mode})
 			}
@@ -338,11 +344,57 @@ func runC10(r *core.Run) {
 		}
 	})
 	r.Exhaustive(true)
+	c10LongLines(r, r.N(40, 1500))
 	c10Sources(r)
 	webCutRounds(r, r.N(2, 10))
 	if !r.Quick() {
 		straceFaults(r, 6)
 	}
+}
+
+// c10LongLines: a line longer than the scanner's 16 KiB line buffer in front of the first dump and another at the
+// end of the stream (such a line is assembled over several refills); cuts inside them - at the buffer multiples and at
+// a few other offsets - in all five ways of signalling.
+func c10LongLines(r *core.Run, n int) {
+	core.Parallel(n, workers(), func(i int) {
+		rr := core.NewRand(r.Seed, 104, uint64(i))
+		s := c10Stream(r, 500000+i)
+		if s.Segs[0].Dump != nil || s.Segs[0].Race != nil || s.Segs[len(s.Segs)-1].Dump != nil || s.Segs[len(s.Segs)-1].Race != nil {
+			return
+		}
+		long := func() string {
+			l := []int{16384 + rr.Intn(3) - 1, 20000 + rr.Intn(9000), 32768 + rr.Intn(3) - 1, 40000 + rr.Intn(30000)}[rr.Intn(4)]
+			return strings.Repeat("z", l)
+		}
+		l0, l1 := long(), long()
+		s.Segs[0].Text = gen.BinStr(l0 + "\n" + string(s.Segs[0].Text))
+		s.Segs[len(s.Segs)-1].Text = gen.BinStr(string(s.Segs[len(s.Segs)-1].Text) + l1 + []string{"", "\n"}[rr.Intn(2)])
+		base, why := c10Prepare(s)
+		if base == nil {
+			r.Violation("uncut", why, "cut", &c10Case{Stream: s, Cut: -1})
+			return
+		}
+		var cuts []int
+		for _, st := range []struct{ start, l int }{{0, len(l0)}, {len(base.in) - len(l1) - 1, len(l1)}} {
+			for _, d := range []int{1, 16383, 16384, 16385, 32767, 32768, 32769, 49152, st.l - 1, st.l, st.l + 1} {
+				if d <= st.l+1 {
+					cuts = append(cuts, st.start+d)
+				}
+			}
+			for k := 0; k < 6; k++ {
+				cuts = append(cuts, st.start+rr.Intn(st.l+1))
+			}
+		}
+		for _, cut := range cuts {
+			if cut < 0 || cut > len(base.in) {
+				continue
+			}
+			for mode := 0; mode < 5; mode++ {
+				c10Eval(r, base, &c10Case{Stream: s, Cut: cut, Mode: mode})
+				r.Count("cuts_inside_lines_longer_than_the_line_buffer", 1)
+			}
+		}
+	})
 }
 
 func replayC10(r *core.Run, kind string, raw json.RawMessage) {
